@@ -270,20 +270,21 @@ example :
     WF A.k (segs.map (viewOf A)) ∧ full A.k (segs.map (viewOf A)) = [0, 1, 2, 3, 0, 0, 0] ∧
     Ragc.ReaderState.answer A (.contigRange [65] [120] 2 6) = .ok (.bases [2, 3, 0, 0]) := by decide
 
-/-- **Range and length queries on an archive that `create` wrote.** Hypotheses of
-`Props.C08.reader_answers_input` (well-formed decisions, so `k ≥ 1`; input over the literal codes; the
-writer answers; distinct names). On the handle model over `ReaderLink.archOf cfg inp dec`, after ANY
-history `ops`, for every contig of every sample of the input and ALL `start`, `end`:
+/-- **Range and length queries on an archive that `create` wrote** (general form: `Planned`, the
+planner answers for every group — implied by "the writer answers" and by `min_match_len ≥ 4`, see
+`Props.C08.planner_answers`). Well-formed decisions (so `k ≥ 1`), input over the literal codes,
+distinct names. On the handle model over `ReaderLink.archOf cfg inp dec`, after ANY history `ops`, for
+every contig of every sample of the input and ALL `start`, `end`:
 
 * `get_contig_range(s, c, start, end)` = `ok` of the input contig's bases `[start, min(end, length))`;
 * `get_contig_length(s, c)` = `ok` of the input contig's length (wrapping reading: no wrap occurs).
 
 `WF` of `range_eq` / `length_eq` is discharged by the writer: every descriptor's `raw_length` is the
 length of the piece it addresses and every later piece is at least `k` long (tiling). -/
-theorem range_on_written_archive (cfg : Ragc.Writer.Cfg) (inp : List Ragc.Writer.Sample)
-    (dec : Ragc.Writer.Decisions) (zc : Nat → List Nat → List Nat) (bs : List Nat)
+theorem range_on_written_archive_planned (cfg : Ragc.Writer.Cfg) (inp : List Ragc.Writer.Sample)
+    (dec : Ragc.Writer.Decisions)
     (hdec : Ragc.Writer.DecisionsOK cfg inp dec) (hcodes : Ragc.Writer.codesOK inp)
-    (hw : Ragc.Writer.writeArchive cfg inp dec zc = some bs) (hnd : NamesDistinct inp)
+    (hpl : Planned cfg inp dec) (hnd : NamesDistinct inp)
     (ops : List Ragc.ReaderState.Op) (smp : Ragc.Writer.Sample) (hs : smp ∈ inp)
     (ctg : Ragc.Writer.Contig) (hc : ctg ∈ smp.contigs) (start end_ : Nat) :
     (Ragc.ReaderState.step (archOf cfg inp dec)
@@ -295,7 +296,6 @@ theorem range_on_written_archive (cfg : Ragc.Writer.Cfg) (inp : List Ragc.Writer
         (.contigLength smp.name ctg.name)).2
       = .ok (.nat ctg.data.length) := by
   have hok := Ragc.WriterLemmas.decOK_of cfg inp dec hdec
-  have hpl := planned_of_writeArchive cfg inp dec zc bs hw
   have hwf := Ragc.ReaderLink.archOf_wf cfg inp dec hdec
   have hinv := Ragc.ReaderState.inv_run (archOf cfg inp dec) hwf ops _ (Ragc.ReaderState.inv_fresh _)
   obtain ⟨views, hvwf, hfull, hb, h32, hr, hlq⟩ :=
@@ -312,10 +312,9 @@ theorem range_on_written_archive (cfg : Ragc.Writer.Cfg) (inp : List Ragc.Writer
     injection h2 with h2
     rw [← h2]
 
--- Non-vacuity on the input of `read_write`'s example (hypotheses by `decide`; "the writer answers" by
--- closed evaluation, as in `Props.C01`): a range across the junction of the two pieces of `A/c`
--- (lengths 6 and 7, overlap 3; the second stored reverse-complemented), after a history.
-set_option maxRecDepth 100000 in
+-- Non-vacuity on the input of `read_write`'s example (hypotheses by `decide`; `min_match_len = 10`):
+-- a range across the junction of the two pieces of `A/c` (lengths 6 and 7, overlap 3; the second
+-- stored reverse-complemented), after a history.
 example :
     let A := archOf Ex.cfg Ex.inp Ex.dec
     let st := (Ragc.ReaderState.run A (Ragc.ReaderState.fresh A) Ex.hist).1
@@ -323,14 +322,45 @@ example :
     (Ragc.ReaderState.step A st (.contigRange [65] [99] 8 100)).2 = .ok (.bases [0, 1]) ∧
     (Ragc.ReaderState.step A st (.contigLength [65] [99])).2 = .ok (.nat 10) ∧
     (Ragc.ReaderState.step A st (.contigLength [65] [100])).2 = .ok (.nat 3) := by
-  have hsome : (Ragc.Writer.writeArchive Ex.cfg Ex.inp Ex.dec Ex.zc).isSome = true := by decide +kernel
-  obtain ⟨bs, hbs⟩ := Option.isSome_iff_exists.mp hsome
-  have h := fun ctg hc => range_on_written_archive Ex.cfg Ex.inp Ex.dec Ex.zc bs Ex.hyps.1 Ex.hyps.2.1 hbs
+  have h := fun ctg hc => range_on_written_archive_planned Ex.cfg Ex.inp Ex.dec Ex.hyps.1 Ex.hyps.2.1
+    (planned_of_minMatch _ _ _ (Ragc.WriterLemmas.decOK_of _ _ _ Ex.hyps.1) (by decide))
     Ex.hyps.2.2.1 Ex.hist ⟨[65], [⟨[99], [0, 1, 2, 3, 0, 1, 2, 3, 0, 1]⟩, ⟨[100], [2, 4, 1]⟩]⟩ (by decide) ctg hc
   exact ⟨(h ⟨[99], [0, 1, 2, 3, 0, 1, 2, 3, 0, 1]⟩ (by decide) 4 9).1,
     (h ⟨[99], [0, 1, 2, 3, 0, 1, 2, 3, 0, 1]⟩ (by decide) 8 100).1,
     (h ⟨[99], [0, 1, 2, 3, 0, 1, 2, 3, 0, 1]⟩ (by decide) 0 0).2,
     (h ⟨[100], [2, 4, 1]⟩ (by decide) 0 0).2⟩
+
+/-- **`range_on_written_archive`**: the same under the writer-side hypotheses of
+`Props.C01.read_write` (`DecisionsOK`, `codesOK`, `writeArchive … = some bs`) and `NamesDistinct`. -/
+theorem range_on_written_archive (cfg : Ragc.Writer.Cfg) (inp : List Ragc.Writer.Sample)
+    (dec : Ragc.Writer.Decisions) (zc : Nat → List Nat → List Nat) (bs : List Nat)
+    (hdec : Ragc.Writer.DecisionsOK cfg inp dec) (hcodes : Ragc.Writer.codesOK inp)
+    (hw : Ragc.Writer.writeArchive cfg inp dec zc = some bs) (hnd : NamesDistinct inp)
+    (ops : List Ragc.ReaderState.Op) (smp : Ragc.Writer.Sample) (hs : smp ∈ inp)
+    (ctg : Ragc.Writer.Contig) (hc : ctg ∈ smp.contigs) (start end_ : Nat) :
+    (Ragc.ReaderState.step (archOf cfg inp dec)
+        (Ragc.ReaderState.run (archOf cfg inp dec) (Ragc.ReaderState.fresh (archOf cfg inp dec)) ops).1
+        (.contigRange smp.name ctg.name start end_)).2
+      = .ok (.bases ((ctg.data.drop start).take (min end_ ctg.data.length - start))) ∧
+    (Ragc.ReaderState.step (archOf cfg inp dec)
+        (Ragc.ReaderState.run (archOf cfg inp dec) (Ragc.ReaderState.fresh (archOf cfg inp dec)) ops).1
+        (.contigLength smp.name ctg.name)).2
+      = .ok (.nat ctg.data.length) :=
+  range_on_written_archive_planned cfg inp dec hdec hcodes (planned_of_writeArchive cfg inp dec zc bs hw) hnd
+    ops smp hs ctg hc start end_
+
+-- Non-vacuity of "the writer answers" on the same input: closed evaluation of the executable model by
+-- `decide +kernel`, as in `Props.C01` (not a step of any theorem); then the theorem applies.
+set_option maxRecDepth 100000 in
+example : ∃ bs, Ragc.Writer.writeArchive Ex.cfg Ex.inp Ex.dec Ex.zc = some bs ∧
+    (Ragc.ReaderState.step (archOf Ex.cfg Ex.inp Ex.dec)
+      (Ragc.ReaderState.run (archOf Ex.cfg Ex.inp Ex.dec) (Ragc.ReaderState.fresh (archOf Ex.cfg Ex.inp Ex.dec))
+        Ex.hist).1 (.contigRange [66] [99] 2 5)).2 = .ok (.bases [2, 2, 0]) := by
+  have hsome : (Ragc.Writer.writeArchive Ex.cfg Ex.inp Ex.dec Ex.zc).isSome = true := by decide +kernel
+  obtain ⟨bs, hbs⟩ := Option.isSome_iff_exists.mp hsome
+  exact ⟨bs, hbs, (range_on_written_archive Ex.cfg Ex.inp Ex.dec Ex.zc bs Ex.hyps.1 Ex.hyps.2.1 hbs
+    Ex.hyps.2.2.1 Ex.hist ⟨[66], [⟨[99], [0, 1, 2, 2, 0, 1, 2, 3, 0, 1]⟩]⟩ (by decide)
+    ⟨[99], [0, 1, 2, 2, 0, 1, 2, 3, 0, 1]⟩ (by decide) 2 5).1⟩
 
 /-- Adjacent ranges on a written archive concatenate, after any two histories (even on two
 different handles): `[a,b) ++ [b,c) = [a,c)`. -/
